@@ -438,7 +438,7 @@ func c10Edits() []edit {
 	}
 }
 
-var placements = []string{"main", "override", "extends", "include", "include-split",
+var placements = []string{"main", "override", "extends", "include", "include-split", "include-nested", "include-extends",
 	"chain-override", "chain-override-rev", "chain-extends", "chain-extends-rev", "chain-include"}
 
 // applyEdit places the edit into a single-file rendering of the valid model m.
@@ -527,6 +527,25 @@ func applyEdit(m validModel, e edit, placement string) (layout, bool) {
 		} else {
 			l.files["inc.yaml"] = deepMerge(deepMerge(M{}, e.topB), e.topF)
 		}
+	case "include-nested":
+		// the violating service / resource lives in a project included by an included project (options cloned twice)
+		main["include"] = []any{"inc.yaml"}
+		l.files["inc.yaml"] = M{"include": []any{"inc2.yaml"}, "services": M{"mid": M{"image": "m"}}}
+		if svcLevel {
+			l.files["inc2.yaml"] = M{"services": M{"t": deepMerge(e.base, e.frag)}}
+		} else {
+			l.files["inc2.yaml"] = deepMerge(deepMerge(M{}, e.topB), e.topF)
+		}
+	case "include-extends":
+		// inside an included project, the completing half is inherited from a template in another file
+		if !svcLevel {
+			return layout{}, false
+		}
+		t := core.DeepCopyVal(e.base).(M)
+		t["extends"] = M{"file": "base.yaml", "service": "tmpl"}
+		main["include"] = []any{"inc.yaml"}
+		l.files["inc.yaml"] = M{"services": M{"t": t}}
+		l.files["base.yaml"] = M{"services": M{"tmpl": e.frag}}
 	case "include-split":
 		// the valid half in an included file, the completing half in an override of the including project
 		if svcLevel {
